@@ -1,4 +1,4 @@
-"""Scripted ICAP server (RESPMOD) for C60: behaviour is chosen per transaction by a callback keyed on the encapsulated
+"""Scripted ICAP server (RESPMOD, and REQMOD for services whose path starts with /q_) for C60: behaviour is chosen per transaction by a callback keyed on the encapsulated
 request URL; OPTIONS advertises the preview size encoded in the service path (/p<N> or /pnone)."""
 import asyncio
 import re
@@ -48,7 +48,7 @@ class IcapServer:
                 if method == 'OPTIONS':
                     m = re.search(r'/p(\w+)$', uri)
                     prev = m.group(1) if m else 'none'
-                    resp = 'ICAP/1.0 200 OK\r\nMethods: RESPMOD\r\nISTag: "verif-1"\r\nAllow: 204\r\nOptions-TTL: 3600\r\n'
+                    resp = 'ICAP/1.0 200 OK\r\nMethods: %s\r\nISTag: "verif-1"\r\nAllow: 204\r\nOptions-TTL: 3600\r\n' % ('REQMOD' if '/q_' in uri else 'RESPMOD')
                     if prev != 'none':
                         resp += 'Preview: %s\r\nTransfer-Preview: *\r\n' % prev
                     resp += 'Encapsulated: null-body=0\r\n\r\n'
@@ -69,7 +69,8 @@ class IcapServer:
                     virgin, ieof, _ = await _read_chunked(reader)
                     if not preview:
                         ieof = True
-                self.log.append({'url': url, 'kind': kind, 'preview': hd.get('preview'), 'preview_bytes': len(virgin) if preview else -1, 'ieof': ieof, 'allow204': '204' in hd.get('allow', '')})
+                self.log.append({'url': url, 'kind': kind, 'preview': hd.get('preview'), 'preview_bytes': len(virgin) if preview else -1, 'ieof': ieof, 'allow204': '204' in hd.get('allow', ''),
+                                 'method': method, 'virgin_head': hdrs})
 
                 async def rest():
                     nonlocal virgin
@@ -105,9 +106,16 @@ class IcapServer:
                     continue
                 # adapted message
                 # aframing "none": the adapted header does not announce its body length (Squid then delimits it itself)
-                ahead = ('HTTP/1.1 200 OK\r\n%sX-Verif-Version: %d\r\nX-Adapted: 1\r\nCache-Control: no-store\r\n\r\n' % (
-                    'Content-Length: %d\r\n' % b['la'] if b.get('aframing', 'length') == 'length' else '', b['va'])).encode()
-                ihead = ('ICAP/1.0 200 OK\r\nISTag: "verif-1"\r\nEncapsulated: res-hdr=0, res-body=%d\r\n\r\n' % len(ahead)).encode()
+                if method == 'REQMOD':
+                    # the adapted request: same target, a body of the service's own
+                    ahead = ('POST %s HTTP/1.1\r\nHost: %s\r\n%sX-Verif-Version: %d\r\nX-Verif-Id: %s\r\nX-Adapted: 1\r\n\r\n' % (
+                        url, url.split('/')[2], 'Content-Length: %d\r\n' % b['la'] if b.get('aframing', 'length') == 'length' else 'Transfer-Encoding: chunked\r\n',
+                        b['va'], b.get('vid', ''))).encode()
+                    ihead = ('ICAP/1.0 200 OK\r\nISTag: "verif-1"\r\nEncapsulated: req-hdr=0, req-body=%d\r\n\r\n' % len(ahead)).encode()
+                else:
+                    ahead = ('HTTP/1.1 200 OK\r\n%sX-Verif-Version: %d\r\nX-Adapted: 1\r\nCache-Control: no-store\r\n\r\n' % (
+                        'Content-Length: %d\r\n' % b['la'] if b.get('aframing', 'length') == 'length' else '', b['va'])).encode()
+                    ihead = ('ICAP/1.0 200 OK\r\nISTag: "verif-1"\r\nEncapsulated: res-hdr=0, res-body=%d\r\n\r\n' % len(ahead)).encode()
                 abody = b['abody']
                 if kind == 'abortMidHead':
                     writer.write(ihead[:20])
